@@ -6029,7 +6029,12 @@ int32 psX509AuthenticateCert(psPool_t *pool, psX509Cert_t *subjectCert,
     }
     else
     {
-        issuerCert->authStatus = PS_FALSE;
+        /* The issuer is typically a trust anchor shared by every session
+           that uses the key set: do not write to it unless needed */
+        if (issuerCert->authStatus != PS_FALSE)
+        {
+            issuerCert->authStatus = PS_FALSE;
+        }
         ic = issuerCert; /* Easy case of single subject and single issuer */
         sc = subjectCert;
     }
